@@ -112,6 +112,7 @@ class Features:
     style_names: bool = True
     enum_first_zero_bias: bool = True
     enum_first_zero: bool = False  # first member is always 0 (keeps recorded finding D4b out of a check)
+    odd_file_names: bool = False  # `sensor.v2.bitproto`, `my-proto.bitproto` for the file nothing imports
     subdirs: bool = False  # files in sub-directories, imports by relative paths (only checks that address files by File.filename)
     keyword_field_names: bool = False  # a field called `type`, rarely (encoding checks switch it on)
     extremes: bool = False  # rare extremes of the documented limits: capacity 65535, 255 fields, deep nesting (encoding checks switch it on)
@@ -504,6 +505,11 @@ def units(draw: Any, feat: Optional[Features] = None) -> Unit:
         prune_unused_imports(b.unit)
     if feat.shared_nested_names and feat.nested and feat.enums and draw(st.integers(0, 2)) == 0:
         share_nested_names(draw, b.unit, feat)
+    if feat.odd_file_names and draw(st.integers(0, 3)) == 1:
+        # a schema file name with more dots / dashes than `<name>.bitproto`; only for the file nothing imports (the last
+        # one: imports go to earlier files), since target languages import a module by its file name
+        f = b.unit.files[-1]
+        f.base = f.base + draw(st.sampled_from([".v2", "-draft", ".2024.rev1", ".V2", "-x.y", ".bitproto.old"]))
     if feat.subdirs and len(b.unit.files) > 1 and draw(st.integers(0, 2)) == 0:
         # files of one project in several directories: import paths are relative to the importing file
         for f in b.unit.files:
@@ -799,6 +805,8 @@ def unit_labels(unit: Unit) -> List[str]:
                 labs.add("import_as")
             if "/" in imp.path_text:
                 labs.add("import_path_with_dirs")
+        if not f.base.isidentifier():
+            labs.add("file_name_with_dots_or_dashes")
         for it in f.items:
             if isinstance(it, Const):
                 labs.add("const")
